@@ -15,8 +15,29 @@ def cell_from_metric(m, u):
     """float cell whose direct metric tensor is u * Sym(m)"""
     g11, g22, g33, g23, g13, g12 = [u * x for x in m]
     a, b, c = math.sqrt(g11), math.sqrt(g22), math.sqrt(g33)
-    return [a, b, c, math.degrees(math.acos(g23 / (b * c))), math.degrees(math.acos(g13 / (a * c))),
-            math.degrees(math.acos(g12 / (a * b)))]
+    return snap_cell([a, b, c, math.degrees(math.acos(g23 / (b * c))), math.degrees(math.acos(g13 / (a * c))),
+                      math.degrees(math.acos(g12 / (a * b)))])
+
+
+def snap_cell(cell):
+    """A cell whose exact metric is of special form (equal axes, angles of exactly 60, 90, 120 degrees) comes out of sqrt/acos with the last
+    bit off (119.99999999999999, b = a(1 + 2e-16)).  Users type [5, 5, 7, 90, 90, 120]: the float cell is snapped to those literals when it
+    is within 1e-11 (relative) of them - fast paths that test `a == b` or `gamma == 120` are then really taken.  The change is 1e-13 of the
+    cell, four orders below any tolerance used."""
+    c = [float(x) for x in cell]
+    for i in range(3, 6):
+        for nice in (90.0, 120.0, 60.0, 45.0, 135.0):
+            if abs(c[i] - nice) < 1e-9:
+                c[i] = nice
+    for i in range(3):
+        for j in range(i):
+            if abs(c[i] - c[j]) <= 1e-11 * abs(c[j]):
+                c[i] = c[j]
+    for i in range(4, 6):
+        for j in range(3, i):
+            if abs(c[i] - c[j]) <= 1e-11:
+                c[i] = c[j]
+    return c
 
 
 def close(a, b, rel=1e-9, scale=None):
